@@ -77,6 +77,17 @@ template <typename T> std::string run(const std::string & op, const std::vector<
     typename field<B>::coordinate_t c;
     for (std::size_t i = 0; i < N; ++i) c[i] = frombits<T>(g[1][i]);
     auto r = fv.at(c);
+    // the same layer reached through the other constructors (copy; reload of its own dump, which ends in the
+    // `(configuration, backend&&)` constructor) must answer identically: whatever a layer caches must be filled on every path
+    {
+      field<B> fc(f);
+      std::stringstream ss; f.dump(ss);
+      field<B> fl(ss);
+      typename field<B>::view_t vc(fc), vl(fl);
+      auto rc = vc.at(c); auto rl = vl.at(c);
+      for (std::size_t i = 0; i < N; ++i) if (bits<T>(rc[i]) != bits<T>(r[i]) || bits<T>(rl[i]) != bits<T>(r[i])) {
+        std::cerr << "Assertion `copied and reloaded affine layer answer like the constructed one' failed" << std::endl; std::abort(); }
+    }
     std::ostringstream os;
     for (std::size_t i = 0; i < N; ++i) os << (i ? " " : "") << bits<T>(r[i]);
     return os.str();
